@@ -241,7 +241,19 @@ fn model_case(m: &Model, mut tags: Vec<String>, roundtrip: bool) -> Case {
                 }
             }
         } else {
+            // the front end produced this Model but the linearizer declines it: its rendering must still be a
+            // program of the grammar
             tags.push("model-does-not-compile".into());
+            let t = text.clone();
+            match std::panic::catch_unwind(move || RoocParser::new(t).parse().map(|_| ()).map_err(|e| format!("{:?}", e))) {
+                Ok(Ok(())) => tags.push("reparse-accepted-grammar-only".into()),
+                Ok(Err(e)) => {
+                    tags.push("reparse-rejected-parse".into());
+                    if m.constraints().is_empty() { c.sig = Some("empty-constraint-section-rejected".into()); }
+                    c.impl_violation = Some(format!("rendering of a compiled model is rejected at parse: {}  <=  {}", first_line(&e), text.replace('\n', " | ")));
+                }
+                Err(_) => { c.impl_violation = Some(format!("parser panics on the rendering of a compiled model  <=  {}", text.replace('\n', " | "))); }
+            }
         }
     }
     tags.sort(); tags.dedup();
@@ -304,7 +316,8 @@ fn src(s: &S) -> String {
 }
 
 const MAGS: [f64; 16] = [1.0, 2.0, 3.0, 0.5, 0.1, 0.25, 7.0, 10.0, 1e-9, 1e-7, 1e-6, 0.00001, 0.00002, 1000.0, 123456.5, 1e9];
-const REALS: [&str; 5] = ["x", "y", "z", "x_1", "x_a"];
+// `e1` / `E2`: names that could continue a number token (`2.5e1` must stay 2.5 times `e1`)
+const REALS: [&str; 7] = ["x", "y", "z", "x_1", "x_a", "e1", "E2"];
 const BOOLS: [&str; 3] = ["b", "d", "e"];
 
 fn num(r: &mut Rng, sweep: bool) -> S {
@@ -329,6 +342,11 @@ fn lin(r: &mut Rng, depth: u32, sweep: bool, rich: bool) -> S {
     if r.chance(1, 25) {
         // a logic value used as a number: `(b and d) + x`
         let op = *r.pick(&["+", "-"]);
+        // `-(not b)`: a prefix operator directly under another one
+        if r.chance(1, 4) {
+            let nb = S::Neg(Box::new(S::Not(Box::new(S::Var(r.pick(&BOOLS).to_string())))));
+            return S::Bin(op, Box::new(lin(r, d_dec(depth), sweep, rich)), Box::new(nb));
+        }
         return if r.chance(1, 2) { S::Bin(op, Box::new(logic(r, 1)), Box::new(lin(r, d_dec(depth), sweep, rich))) }
                else { S::Bin(op, Box::new(lin(r, d_dec(depth), sweep, rich)), Box::new(logic(r, 1))) };
     }
@@ -348,14 +366,27 @@ fn d_dec(depth: u32) -> u32 { depth.saturating_sub(1) }
 fn logic(r: &mut Rng, depth: u32) -> S {
     if depth == 0 || r.chance(1, 4) {
         let v = S::Var(r.pick(&BOOLS).to_string());
-        return if r.chance(1, 4) { S::Not(Box::new(v)) } else { v };
+        // nested prefix operators: `not (not b)`, `not (-b)` (the grammar takes ONE prefix operator per operand)
+        return match r.below(16) {
+            0 | 1 | 2 => S::Not(Box::new(v)),
+            3 => S::Not(Box::new(S::Not(Box::new(v)))),
+            4 => if r.chance(1, 3) { S::Not(Box::new(S::Neg(Box::new(v)))) } else { S::Not(Box::new(v)) },
+            _ => v,
+        };
     }
     let op = *r.pick(&["and", "or", "xor", "implies", "iff", "and", "or"]);
     S::Bin(op, Box::new(logic(r, depth - 1)), Box::new(logic(r, depth - 1)))
 }
 
 fn source_program(r: &mut Rng, sweep: bool) -> String {
-    let rich = r.chance(1, 3);
+    // a third of the programs use plain names only and no block functions (no `$`-helper variables): their
+    // renderings lie inside the lexer/parser model, so the whole-model round trip is checked on them
+    let plain = r.chance(1, 3);
+    let rich = !plain && r.chance(1, 3);
+    let s = source_program_named(r, sweep, rich);
+    if plain { s.replace("x_1", "u").replace("x_a", "v").replace("r_1", "rr") } else { s }
+}
+fn source_program_named(r: &mut Rng, sweep: bool, rich: bool) -> String {
     let mut s = String::new();
     match r.below(7) {
         0 => s.push_str("solve\n"),
@@ -376,7 +407,7 @@ fn source_program(r: &mut Rng, sweep: bool) -> String {
     }
     s.push_str("define\n");
     let dom = *r.pick(&["Real(-10, 10)", "NonNegativeReal(0, 8)", "Real(-1000000000, 1000000000)", "IntegerRange(-3, 7)", "Real(-2.5, 0.75)"]);
-    s.push_str(&format!("    x, y, z as {}\n    x_1, x_a as Real(-4, 6)\n    b, d, e as Boolean\n", dom));
+    s.push_str(&format!("    x, y, z as {}\n    x_1, x_a, e1, E2 as Real(-4, 6)\n    b, d, e as Boolean\n", dom));
     s
 }
 
@@ -386,7 +417,8 @@ fn compile_source(text: &str) -> Option<Model> {
 }
 
 // ------------------------------------------------------------------------------------------------ linear-model generator
-const LIN_NAMES: [&str; 10] = ["x", "y", "z", "x_1", "x_a_b", "$abs_0", "$logic_witness_0", "$max_1_select_0", "w2", "$min_3"];
+const PLAIN_NAMES: [&str; 9] = ["x", "y", "z", "w2", "u", "v3", "e1", "E10", "e"];
+const LIN_NAMES: [&str; 14] = ["x", "y", "z", "x_1", "x_a_b", "$abs_0", "$logic_witness_0", "$max_1_select_0", "w2", "$min_3", "e1", "E10", "e_1", "e"];
 const COEFFS: [f64; 30] = [1.0, -1.0, 2.0, -2.0, 0.5, -0.5, 3.0, 10.0, 0.1, -0.1, 1e-9, -1e-9, 1e-8, -1e-7, 1e-6, -1e-6, 9.9e-6, -9.9e-6,
     1e-5, -1e-5, 1.0001e-5, -1.0001e-5, 2e-5, -2e-5, 1e9, -1e9, 123456.789, -0.333, 1000.0, -999999999.9];
 
@@ -406,11 +438,12 @@ fn lin_var_type(r: &mut Rng) -> VariableType {
 fn random_lin(r: &mut Rng, sweep: bool) -> LinearModel {
     let nv = 1 + r.below(4);
     let mut m = LinearModel::new();
-    let mut pool: Vec<&str> = LIN_NAMES.to_vec();
+    let plain = r.chance(1, 3);
+    let mut pool: Vec<&str> = if plain { PLAIN_NAMES.to_vec() } else { LIN_NAMES.to_vec() };
     for _ in 0..nv { let i = r.below(pool.len()); m.add_variable(pool.remove(i), lin_var_type(r)); }
     let coef = |r: &mut Rng| if sweep { *r.pick(&COEFFS) } else { *r.pick(&COEFFS[..10]) };
     let nr = 1 + r.below(4);
-    let names = ["cap", "a", "c2", "row_1", "$r"];
+    let names = if plain { ["cap", "a", "c2", "rr", "k"] } else { ["cap", "a", "c2", "row_1", "$r"] };
     for i in 0..nr {
         let mut cs: Vec<f64> = (0..nv).map(|_| if r.chance(1, 4) { 0.0 } else { coef(r) }).collect();
         if i == 0 { for c in cs.iter_mut() { if *c == 0.0 { *c = 1.0; } } }       // every variable is used somewhere
@@ -439,6 +472,10 @@ fn seeded_sources() -> Vec<(&'static str, &'static str)> {
         ("seed-repo-test-2", "min max { x, y }\ns.t.\n    lower: x + y >= 4\ndefine\n    x, y as NonNegativeReal(0, 9)"),
         ("seed-logic", "max x\ns.t.\n    a: b or (d and not b)\n    x <= 3 * b + 1\ndefine\n    x as Real(-5, 10)\n    b, d as Boolean"),
         ("seed-logic-under-arith", "max x\ns.t.\n    (b and d) + x <= 1\n    x - (b or d) >= -3\ndefine\n    x as Real(-5, 10)\n    b, d as Boolean"),
+        ("seed-not-not", "max x\ns.t.\n    not (not b)\n    (not (not d)) or b\n    x <= 3\ndefine\n    x as Real(-5, 10)\n    b, d as Boolean"),
+        ("seed-neg-not", "max x\ns.t.\n    x + -(not d) <= 1\n    x - (-(not b)) >= -3\ndefine\n    x as Real(-5, 10)\n    b, d as Boolean"),
+        ("seed-not-neg", "max x\ns.t.\n    (not (-b)) or d\n    x <= 3\ndefine\n    x as Real(-5, 10)\n    b, d as Boolean"),
+        ("seed-exponent-like-names", "min 2.5 * e1 + 0.5 * E2\ns.t.\n    1.5 * e1 - 0.25 * E2 >= 1\n    e1 + E2 <= 6\ndefine\n    e1, E2 as Real(-5, 10)"),
         ("seed-neg-literal", "min -3 * x + (-2) * -y\ns.t.\n    x - -y >= -1\ndefine\n    x, y as Real(-5, 10)"),
     ]
 }
@@ -541,14 +578,17 @@ pub fn generate(seed: u64, n: usize, thorough: bool, corpus: Option<&str>) -> Ve
         for s in [1.0, -1.0] {
             let c = s * v;
             if c.abs() > 1e9 || c.abs() < 1e-9 { continue; }
-            let mut m = LinearModel::new();
-            m.add_variable("x", VariableType::Real(-5.0, 10.0));
-            m.add_variable("$abs_0", VariableType::NonNegativeReal(0.0, 4.0));
-            m.add_named_constraint(vec![c, 1.0], Comparison::LessOrEqual, 3.0, "r");
-            m.add_constraint(vec![1.0, c], Comparison::GreaterOrEqual, c);
-            m.set_objective(vec![1.0, c], OptimizationType::Min);
-            let (o, t, _, cs, vs, d) = m.into_parts();
-            api_lin_cases(&LinearModel::new_from_parts(o, t, c, cs, vs, d), vec!["coefficient-sweep".into()], &mut cases);
+            // second pass: variables whose names could continue a number token (`0.3e1`, `0.3E2`)
+            for (n1, n2, tag) in [("x", "$abs_0", "coefficient-sweep"), ("e1", "E2", "coefficient-sweep-exponent-names")] {
+                let mut m = LinearModel::new();
+                m.add_variable(n1, VariableType::Real(-5.0, 10.0));
+                m.add_variable(n2, VariableType::NonNegativeReal(0.0, 4.0));
+                m.add_named_constraint(vec![c, 1.0], Comparison::LessOrEqual, 3.0, "r");
+                m.add_constraint(vec![1.0, c], Comparison::GreaterOrEqual, c);
+                m.set_objective(vec![1.0, c], OptimizationType::Min);
+                let (o, t, _, cs, vs, d) = m.into_parts();
+                api_lin_cases(&LinearModel::new_from_parts(o, t, c, cs, vs, d), vec![tag.into()], &mut cases);
+            }
         }
     }
     // outside the compiled profile: byte-exactness only (non-finite numbers, -0, unused variables, panicking index)
